@@ -5,6 +5,7 @@ import (
 	"go/ast"
 	"go/token"
 	"go/types"
+	"sort"
 	"strings"
 )
 
@@ -610,34 +611,57 @@ func c09r5(p *Program, r *Report) {
 	if fi := r.NeedFunc("newTokenRing"); fi != nil {
 		info := fi.Pkg.TypesInfo
 		want := map[string]string{"Murmur3Partitioner": "murmur3Partitioner", "OrderedPartitioner": "orderedPartitioner", "RandomPartitioner": "randomPartitioner"}
-		seen := 0
-		ast.Inspect(fi.Decl.Body, func(x ast.Node) bool {
-			ifs, ok := x.(*ast.IfStmt)
-			if !ok {
-				return true
+		tr := newReadTracer(p)
+		tr.prims = map[string]string{"sort.Sort": "sort", "sort.Stable": "sort"}
+		tr.noAuto = func(string) bool { return true }
+		tr.trackField = "partitioner"
+		got := map[string]map[string]bool{}
+		sorted, unsortedPath := true, ""
+		rejectsOthers := true
+		for _, st := range tr.run(fi, 4) {
+			lits := trueLits(st, "strings.HasSuffix")
+			okRet := st.retStmt != nil && len(st.retStmt.Results) == 2 && isNil(info, st.retStmt.Results[1])
+			if len(lits) == 0 {
+				if okRet {
+					rejectsOthers = false
+				}
+				continue
 			}
-			c, ok := ifs.Cond.(*ast.CallExpr)
-			if !ok || calleeName(info, c) != "strings.HasSuffix" {
-				return true
+			if len(lits) != 1 {
+				continue
 			}
-			suffix, _ := constString(info, c.Args[1])
-			got := ""
-			for _, st := range ifs.Body.List {
-				if as, ok := st.(*ast.AssignStmt); ok && len(as.Rhs) == 1 && strings.HasSuffix(exprStr(as.Lhs[0]), ".partitioner") {
-					got = typeNameOf(info.TypeOf(as.Rhs[0]))
+			typ, hasSort := "", false
+			for _, it := range flat(st.trace) {
+				if it.Prim == "field" {
+					typ = typeNameOf(info.TypeOf(it.Expr))
+				}
+				if it.Prim == "sort" {
+					hasSort = true
 				}
 			}
-			seen++
-			r.Check(want[suffix] != "" && got == want[suffix], ifs, "newTokenRing selects "+want[suffix]+" for *"+suffix, got, "cluster partitioner *"+suffix+" selects "+got)
-			return true
-		})
-		ok := false
-		for _, c := range callsIn(fi.Decl.Body) {
-			if calleeName(info, c) == "sort.Sort" {
-				ok = true
+			if got[lits[0]] == nil {
+				got[lits[0]] = map[string]bool{}
+			}
+			got[lits[0]][typ] = true
+			if okRet && !hasSort {
+				sorted, unsortedPath = false, lits[0]
 			}
 		}
-		r.Check(ok && seen == 3, fi.Decl, "newTokenRing sorts the parsed tokens with the partitioner's order", "sort.Sort(tokenRing) over token.Less", "the ring is not sorted by the partitioner's token order, or a partitioner branch is missing")
+		for suffix, w := range want {
+			var ts []string
+			for t := range got[suffix] {
+				ts = append(ts, t)
+			}
+			sort.Strings(ts)
+			r.Check(len(ts) == 1 && ts[0] == w, fi.Decl, "newTokenRing selects "+w+" for *"+suffix, strings.Join(ts, ","), "cluster partitioner *"+suffix+" selects "+ifs(len(ts) == 0, "nothing", strings.Join(ts, ",")))
+		}
+		for suffix := range got {
+			if want[suffix] == "" {
+				r.Bad(fi.Decl, "newTokenRing selects only known partitioners", "a branch for *"+suffix+" exists, which is not one of Cassandra's partitioners handled by this driver")
+			}
+		}
+		r.Check(sorted && rejectsOthers && len(got) >= 3, fi.Decl, "newTokenRing sorts the parsed tokens with the partitioner's order", "sort.Sort(tokenRing) over token.Less",
+			"the ring is not sorted by the partitioner's token order"+ifs(unsortedPath != "", " (for *"+unsortedPath+")", "")+", a partitioner branch is missing, or an unknown partitioner is accepted")
 	}
 	if fi := r.NeedFunc("(*tokenRing).Less"); fi != nil {
 		s := exprStr(fi.Decl.Body.List[0].(*ast.ReturnStmt).Results[0])
